@@ -3414,3 +3414,55 @@ func typingFacts(conds ...string) string {
 	}
 	return strings.Join(facts, " && ")
 }
+
+// RFileOf (R-RESOLVE): when a package is decorated, the file an identifier is resolved in is the
+// file that contains it. fileOf returns the file being decorated when there is one; otherwise the
+// element of the package's files whose extent contains the identifier's position — returned
+// under exactly that containment (files without declarations may be skipped: nothing in them
+// can be resolved). A wrong file means the identifier is qualified with another file's imports.
+func (e *Env) RFileOf() {
+	pkg := e.Prog.Pkg(load.PkgDecorator)
+	info := pkg.TypesInfo
+	c := e.Sib.Ctx[load.PkgDecorator]
+	fd := load.FuncDecl(pkg, "fileDecorator", "fileOf")
+	if fd == nil || fd.Body == nil || fd.Type.Params == nil || len(fd.Type.Params.List) != 1 || len(fd.Type.Params.List[0].Names) != 1 {
+		return // the provenance rule reports a missing fileOf
+	}
+	id := fd.Type.Params.List[0].Names[0].Name
+	n := 0
+	ast.Inspect(fd.Body, func(nd ast.Node) bool {
+		rs, ok := nd.(*ast.RangeStmt)
+		if !ok || rs.Value == nil {
+			return true
+		}
+		val, ok := rs.Value.(*ast.Ident)
+		if !ok {
+			return true
+		}
+		if _, tn := namedOf(info.TypeOf(val)); tn != "File" {
+			return true
+		}
+		ast.Inspect(rs.Body, func(m ast.Node) bool {
+			ret, ok := m.(*ast.ReturnStmt)
+			if !ok || len(ret.Results) != 1 || types.ExprString(ret.Results[0]) != val.Name {
+				return true
+			}
+			n++
+			pf := val.Name
+			inside := pf + ".Pos() <= " + id + ".Pos() && " + id + ".Pos() <= " + pf + ".End()"
+			pc, okp := pathCond(c, rs.Body.List, ret)
+			key := "fileOf: a file of the package is returned exactly when it contains the identifier"
+			only, d1 := unsatWith(orTrue(pc), "!("+inside+")")
+			whenever, d2 := unsatWith("!("+orTrue(pc)+")", inside+" && len("+pf+".Decls) != 0")
+			if !okp || !d1 || !d2 {
+				e.Run.Undecided("R-RESOLVE", key, e.Prog.Pos(ret.Pos()), "condition not propositional: "+pc)
+				return true
+			}
+			e.Run.Check("R-RESOLVE", key, e.Prog.Pos(ret.Pos()), only && whenever,
+				"the file is returned under «"+pc+"» (specified: `"+inside+"`, files without declarations may be skipped): with ParseDir / DecorateNode on a package an identifier is resolved with the import declarations of another file — qualified with the wrong package, or not at all")
+			return true
+		})
+		return true
+	})
+	e.Run.Analysed("R-RESOLVE fileOf returns inside the package loop", n)
+}
